@@ -151,6 +151,11 @@ inductive Fate
   | queued                   -- waits for the lock of a limited object
 deriving Repr, DecidableEq
 
+/-- the grant list of one request -/
+def fateGrants (p : Nat) : Fate → List (Nat × Nat)
+  | .granted g => [(p, g)]
+  | _ => []
+
 /-- poller `p` calls `take_tokens()` on the **current** object (the one without a successor) at clock `now` -/
 def enterCur (p now : Nat) : NObj → NObj × Fate
   | .unlimited b l => (.unlimited b l, .granted unlimitedGrant)
@@ -236,7 +241,7 @@ def Net.poll (n : Net) (pid dt : Nat) : Net × List (Nat × Nat) :=
   | some (_, false) => ({ n with now := now }, [])
   | none =>
     let r := enterCur pid now n.cur
-    ({ n with cur := r.1, now := now }, match r.2 with | .granted g => [(pid, g)] | _ => [])
+    ({ n with cur := r.1, now := now }, fateGrants pid r.2)
 
 /-- `set_*_speed_limit(kbps)`: a new object takes over tokens and clock; the old one becomes a replaced object -/
 def Net.setLimit (n : Net) (kbps : Nat) : Net :=
